@@ -28,6 +28,12 @@ costs time.
 ``Target.activate``, answers PSL_REQ, switches the bit rate and returns a ``LocalTarget``
 holding ``atr_req``, ``psl_req`` and the first DEP_REQ.  Unlike a radio chip it keeps
 listening after a lost or corrupted frame.
+
+Entry points: ``conversation`` (C04: activation, then exchanges under a fault script),
+``p2p`` (C19: two LogicalLinkControllers activated against each other on an Initiator and a
+Target), ``p2p_connect`` (C19: the same through ``ContactlessFrontend.connect(llcp=...)`` on
+``SimFrontend`` objects).  ``FakeOs`` replaces ``os.urandom`` inside ``nfc.dep`` so that the
+NFCID3 values, and with them all frames, are reproducible.
 """
 import queue
 import threading
